@@ -226,11 +226,16 @@ func (n *NativeRunner) goTest(relDir, ov string, env []string, race bool) ([]Nat
 
 // Replay runs one harness natively against a replay file.
 func (n *NativeRunner) Replay(relDir, pkgName string, harnesses []string, harness, replayFile string) (*NativeRec, string, error) {
+	return n.ReplayRace(relDir, pkgName, harnesses, harness, replayFile, false)
+}
+
+// ReplayRace is Replay, optionally built with the race detector.
+func (n *NativeRunner) ReplayRace(relDir, pkgName string, harnesses []string, harness, replayFile string, race bool) (*NativeRec, string, error) {
 	ov, err := n.prepare(relDir, pkgName, harnesses)
 	if err != nil {
 		return nil, "", err
 	}
-	recs, out, err := n.goTest(relDir, ov, []string{"VERIF_MODE=replay", "VERIF_HARNESS=" + harness, "VERIF_VECTOR=" + replayFile}, false)
+	recs, out, err := n.goTest(relDir, ov, []string{"VERIF_MODE=replay", "VERIF_HARNESS=" + harness, "VERIF_VECTOR=" + replayFile}, race)
 	if len(recs) == 0 {
 		return nil, out, fmt.Errorf("native replay produced no result (%v)", err)
 	}
